@@ -1,2 +1,4 @@
 import OsmtProofs.Prop
 import OsmtProofs.Cdcl
+import OsmtProofs.Skel
+import OsmtProofs.LA
